@@ -53,21 +53,33 @@ theorem above_all (p : Nat) (l : List Entry) (h : ∀ x ∈ l, p < x.height) : a
 
 /-! ## Durable images -/
 
-/-- The image of `n` (flushed records + chain height) is that of an earlier moment of the run:
-`sd`/`Ed`/`trd` are the machine state, the log and the trace at that moment, the chain is at the
-base of that moment, the image holds `Ed` above a watermark `p ≤ chain`, every vote of the trace so
-far (`trT`) was already broadcast by then, and `sd` is what an uncrashed machine reaches on `Ed`. -/
-def Durable (M : Machine S) (c0 : Nat) (n : Node) (trT : List Effect) : Prop :=
-  ∃ sd Ed trd p, LiveInvW M sd Ed n.chainHeight trd ∧ p ≤ n.chainHeight ∧
+/-- `(sd, Ed, trd)` are the final state, the log and the effect trace of the UNCRASHED live run of
+the inputs `insd` from the original boot state (chain at `c0`, empty log). -/
+def RefRun (M : Machine S) (c0 : Nat) (insd : List Input) (sd : S) (Ed : List Entry)
+    (trd : List Effect) : Prop :=
+  ListenOK M (M.init (c0 + 1)) insd ∧ sd = (liveRun M (M.init (c0 + 1)) insd).1 ∧
+    Ed = loggedEntries M (M.init (c0 + 1)) insd ∧ trd = (liveRun M (M.init (c0 + 1)) insd).2
+
+/-- The image of `n` (flushed records + chain height) is that of a moment of an uncrashed run:
+there are inputs `insd` whose uncrashed live run from the original boot has state `sd`, log `Ed`,
+trace `trd`; the image's flushed entries are exactly `Ed`, its live entries are `Ed` above a
+watermark `p ≤ chain`; the chain is at most one delivery behind `sd`; the recovery invariant holds
+for the chain's base (`LiveInvW`) and for `sd`'s own base (`LiveInv`); and every vote of the
+actual history `hist` (all earlier process instances included) is a vote of that uncrashed run. -/
+def Durable (M : Machine S) (c0 : Nat) (n : Node) (hist : List Effect) : Prop :=
+  ∃ sd Ed trd p insd, RefRun M c0 insd sd Ed trd ∧
+    LiveInvW M sd Ed n.chainHeight trd ∧ LiveInv M sd Ed (M.height sd - 1) trd ∧
+    n.chainHeight + 1 ≤ M.height sd ∧ M.height sd ≤ n.chainHeight + 2 ∧ p ≤ n.chainHeight ∧
     view n.store.flushed = (p, above p Ed) ∧ entriesOfRecs n.store.flushed = Ed ∧
-    (∀ v ∈ votesOf trT, v ∈ votesOf trd) ∧ sd = (replayRun M (M.init (c0 + 1)) Ed).1
+    (∀ v ∈ votesOf hist, v ∈ votesOf trd)
 
 theorem Durable.congr {M : Machine S} {c0 : Nat} {n n' : Node} {t t' : List Effect}
     (h : Durable M c0 n t) (hf : n'.store.flushed = n.store.flushed)
     (hc : n'.chainHeight = n.chainHeight) (hv : votesOf t' = votesOf t) : Durable M c0 n' t' := by
-  obtain ⟨sd, Ed, trd, p, h1, h2, h3, h4, h5, h6⟩ := h
-  refine ⟨sd, Ed, trd, p, by rw [hc]; exact h1, by rw [hc]; exact h2, by rw [hf]; exact h3,
-    by rw [hf]; exact h4, by rw [hv]; exact h5, h6⟩
+  obtain ⟨sd, Ed, trd, p, insd, hr, h1, hL, hb1, hb2, h2, h3, h4, h5⟩ := h
+  refine ⟨sd, Ed, trd, p, insd, hr, by rw [hc]; exact h1, hL, by rw [hc]; exact hb1,
+    by rw [hc]; exact hb2, by rw [hc]; exact h2, by rw [hf]; exact h3, by rw [hf]; exact h4,
+    by rw [hv]; exact h5⟩
 
 /-! ## The phases of a node while the effects of one logged input are performed
 
